@@ -148,6 +148,19 @@ func c17Run(w *W, c Case) {
 			w.FD("fd/"+p.name, p.fdKey, fmt.Sprint(p.got), key)
 			w.Eval(1)
 		}
+		// the day classes are defined on the civil day's pillar: switching the eight-character chart of the same Lunar to the
+		// early-rat convention must not move any of them (checked at the late-rat hour, where the conventions differ)
+		if st.H == 23 {
+			before := fmt.Sprint(tao.IsDaySanHui(), tao.IsDaySanYuan(), tao.IsDayWuLa(), tao.IsDayBaJie(), tao.IsDayBaHui(), tao.IsDayMingWu(), tao.IsDayAnWu(), tao.IsDayWu(), listStrings(tao.GetFestivals()), foto.IsDayYangGong(), foto.IsDayZhaiSix(), foto.GetXiu())
+			l.GetEightChar().SetSect(1)
+			after := fmt.Sprint(tao.IsDaySanHui(), tao.IsDaySanYuan(), tao.IsDayWuLa(), tao.IsDayBaJie(), tao.IsDayBaHui(), tao.IsDayMingWu(), tao.IsDayAnWu(), tao.IsDayWu(), listStrings(tao.GetFestivals()), foto.IsDayYangGong(), foto.IsDayZhaiSix(), foto.GetXiu())
+			l.GetEightChar().SetSect(2)
+			if before != after {
+				w.Violatef("predicate", "sect-dependence@"+key, "Taoist/Buddhist day classes at %s change when the Lunar's eight-character chart is switched to sect 1: %s -> %s", key, before, after)
+			}
+			w.Eval(1)
+			w.Count("late-rat-hour-sect-switches", 1)
+		}
 		if got, want := foto.GetXiu(), FotoUtil.XIU_27[(FotoUtil.XIU_OFFSET[am-1]+ld-1)%27]; got != want {
 			w.Violatef("predicate", "Foto.GetXiu@"+key, "Foto.GetXiu at lunar %d-%d = %s, table gives %s", lm, ld, got, want)
 		}
